@@ -149,26 +149,89 @@ func newRegReporter returns (r)
   ensures @fresh r != nil && fresh(r) && r.output != nil && fresh(r.output) && r.db == db && r.config == config
   ensures @sink [C17] bufSink == store(old(bufSink), r.output, payload(config.Output)) && bufSticky == store(old(bufSticky), r.output, false)
 
+// The old register re-implements the accounting of GetReportItem (C02, C07, C15): after the date line (and, unless
+// --totals-only, the element / ingredient lines) it prints - when totals are on and the day contributed anything - a
+// header and one row per contributed element, strictly sorted by name, whose three figures are cNum of exactly
+// EPos, ENeg and their sum (the same specification functions as the template reporters). cNum colours by sign.
+// regTB: index of the first totals row of the current call (-1: none).
+ghost regTB int
+fun CNumS(color bool, v float64) string := if color && v > 0.0 then "\x1B[31m" + Sprintf1F("%10.2f", v) + "\x1B[0m" else (if color && v < 0.0 then "\x1B[32m" + Sprintf1F("%10.2f", v) + "\x1B[0m" else Sprintf1F("%10.2f", v))
+pred OldTotalRow(k int, color bool, els seq[Element], n int) :=
+     typeis(prArgs[k][0], "string") && EHas(els, n, cellat(string, payload(prArgs[k][0])))
+  && PrintedStr(k, 1, CNumS(color, EPos(els, n, cellat(string, payload(prArgs[k][0])))))
+  && PrintedStr(k, 2, CNumS(color, ENeg(els, n, cellat(string, payload(prArgs[k][0])))))
+  && PrintedStr(k, 3, CNumS(color, EPos(els, n, cellat(string, payload(prArgs[k][0]))) + ENeg(els, n, cellat(string, payload(prArgs[k][0])))))
+
 func (*regReporter).Process returns (err)
-  props C17 C08
-  requires @args r != nil && ln != nil && r.output != nil && DBOk(r.db)
+  props C17 C08 C02 C07 C15
+  requires @args r != nil && ln != nil && r.output != nil && DBIs(r.db)
   calluse Sort#1 strings
-  modifies ghost(accKey, accP, accN, accH, bufSticky, sinkFailed, sinkPend, prLen, prSink, prArg, prArgs)
+  modifies ghost(accKey, accP, accN, accH, bufSticky, sinkFailed, sinkPend, prLen, prSink, prArg, prArgs, regTB)
+  let E0 := elems(ln.Elements)
+  let N0 := len(ln.Elements)
+  let B := prLen
+  let COL := r.config.Color
   ensures @sink [C17] BufStep(r.output) && err == nil
-  loop 1 { invariant @inv r == old(r) && ln == old(ln) && WfAcc(acc) && AccView(acc) && fresh(acc) && (forall k string :: {acc[k]} k in acc ==> arr(acc[k]) >= old(alloc())) && BufStep(r.output) }
-  loop 2 { invariant @inv r == old(r) && ln == old(ln) && WfAcc(acc) && AccView(acc) && fresh(acc) && (forall k string :: {acc[k]} k in acc ==> arr(acc[k]) >= old(alloc())) && BufStep(r.output) }
+  ensures @date [C02] prLen > B && PrintedStr(B, 0, FormatTime(ln.Time, r.config.DateFormat))
+  ensures @no-totals [C15] !r.config.Totals ==> regTB < 0
+  ensures @totals-rows [C02 C07 C15] regTB >= 0 ==> B < regTB && regTB <= prLen && (forall k int :: {prArgs[k]} regTB <= k && k < prLen ==> OldTotalRow(k, COL, E0, N0))
+  ensures @totals-sorted [C02 C05] regTB >= 0 ==> (forall k int :: {prArgs[k]} regTB <= k && k + 1 < prLen ==> cellat(string, payload(prArgs[k][0])) < cellat(string, payload(prArgs[k + 1][0])))
+  ensures @nothing-contributed [C02] r.config.Totals && regTB < 0 ==> (forall x string :: {EHas(E0, N0, x)} !EHas(E0, N0, x))
+  ghost at entry { set regTB := 0 - 1 }
+  loop 1 {
+    pre { unfold forall x string :: EPos(E0, 0, x); unfold forall x string :: ENeg(E0, 0, x); unfold forall x string :: EHas(E0, 0, x); unfold forall x string :: CPosIn(E0, 0, 0.0, x); unfold forall x string :: CNegIn(E0, 0, 0.0, x); unfold forall x string :: SpecHas(E0, 0, x) }
+    invariant @inv r == old(r) && ln == old(ln) && WfAcc(acc) && AccView(acc) && fresh(acc) && (forall k string :: {acc[k]} k in acc ==> arr(acc[k]) >= old(alloc())) && BufStep(r.output)
+    invariant @params elems(ln.Elements) == E0 && len(ln.Elements) == N0 && ln.Elements == old(ln.Elements) && DBIs(r.db) && r.config == old(r.config) && regTB < 0 && prLen > B
+    invariant @date PrintedStr(B, 0, FormatTime(ln.Time, r.config.DateFormat)) && payload(prArgs[B][0]) >= old(alloc()) && payload(prArgs[B][0]) < alloc()
+    invariant @acc-is AccIs(acc, E0, #i, E0, 0, 0.0)
+    end {
+      let i1 := #i + 1
+      unfold forall x string :: EPos(E0, i1, x)
+      unfold forall x string :: ENeg(E0, i1, x)
+      unfold forall x string :: EHas(E0, i1, x)
+      unfold forall x string :: CPos(E0[i1 - 1].Name, E0[i1 - 1].Value, x)
+      unfold forall x string :: CNeg(E0[i1 - 1].Name, E0[i1 - 1].Value, x)
+      unfold forall x string :: CHas(E0[i1 - 1].Name, x)
+    }
+  }
+  loop 2 {
+    pre { unfold forall x string :: CPosIn(RDB[element.Name], 0, element.Value, x); unfold forall x string :: CNegIn(RDB[element.Name], 0, element.Value, x); unfold forall x string :: SpecHas(RDB[element.Name], 0, x) }
+    invariant @inv r == old(r) && ln == old(ln) && WfAcc(acc) && AccView(acc) && fresh(acc) && (forall k string :: {acc[k]} k in acc ==> arr(acc[k]) >= old(alloc())) && BufStep(r.output)
+    invariant @params elems(ln.Elements) == E0 && len(ln.Elements) == N0 && ln.Elements == old(ln.Elements) && DBIs(r.db) && r.config == old(r.config) && regTB < 0 && prLen > B
+    invariant @date PrintedStr(B, 0, FormatTime(ln.Time, r.config.DateFormat)) && payload(prArgs[B][0]) >= old(alloc()) && payload(prArgs[B][0]) < alloc()
+    invariant @row element == E0[#i1] && 0 <= #i1 && #i1 < N0 && element.Name in RDBdom && elems(#coll) == RDB[element.Name] && len(#coll) == RDBlen[element.Name]
+    invariant @acc-is AccIs(acc, E0, #i1, RDB[element.Name], #i, element.Value)
+  }
+  ghost before call 1 Add {
+    let j1 := #i + 1
+    unfold forall x string :: CPosIn(RDB[element.Name], j1, element.Value, x)
+    unfold forall x string :: CNegIn(RDB[element.Name], j1, element.Value, x)
+    unfold forall x string :: SpecHas(RDB[element.Name], j1, x)
+  }
+  ghost after call 1 printTotalHeader { set regTB := prLen }
   loop 3 {
-    invariant @inv r == old(r) && ln == old(ln) && WfAcc(acc) && BufStep(r.output) && len(ss) == #it && (arr(ss) == 0 || arr(ss) >= old(alloc()))
+    invariant @inv r == old(r) && ln == old(ln) && WfAcc(acc) && AccView(acc) && BufStep(r.output) && len(ss) == #it && (arr(ss) == 0 || arr(ss) >= old(alloc())) && r.config == old(r.config)
     invariant @copied forall j int :: {ss[j]} 0 <= j && j < #it ==> ss[j] == #ord[j]
+    invariant @acc-is AccIs(acc, E0, N0, E0, 0, 0.0) && regTB == prLen && regTB > B
+    invariant @date PrintedStr(B, 0, FormatTime(ln.Time, r.config.DateFormat)) && payload(prArgs[B][0]) >= old(alloc()) && payload(prArgs[B][0]) < alloc()
   }
   ghost after call 1 Sort {
+    unfold SortedStr(elems(ss), len(ss))
     lassert @keys-perm forall p int :: {ss[p]} 0 <= p && p < len(ss) ==> ss[p] in acc && ss[p] == at(call, elems(ss))[PermBack(at(call, elems(ss)), elems(ss), p)]
     assert @keys forall p int :: {ss[p]} 0 <= p && p < len(ss) ==> ss[p] in acc
+    unfold StrictStr(elems(ss), len(ss))
+    assert @strict StrictStr(elems(ss), len(ss))
     forget call
   }
   loop 4 {
-    invariant @inv r == old(r) && ln == old(ln) && WfAcc(acc) && BufStep(r.output) && mapval(acc) == at(pre4, mapval(acc))
+    invariant @inv r == old(r) && ln == old(ln) && WfAcc(acc) && AccView(acc) && BufStep(r.output) && mapval(acc) == at(pre4, mapval(acc)) && r.config == old(r.config) && (arr(ss) == 0 || arr(ss) >= old(alloc()))
     invariant @keys forall p int :: {ss[p]} 0 <= p && p < len(ss) ==> ss[p] in acc
+    invariant @strict StrictStr(elems(ss), len(ss))
+    invariant @acc-is AccIs(acc, E0, N0, E0, 0, 0.0) && regTB > B && prLen == regTB + #i
+    invariant @date PrintedStr(B, 0, FormatTime(ln.Time, r.config.DateFormat)) && payload(prArgs[B][0]) >= old(alloc()) && payload(prArgs[B][0]) < alloc()
+    invariant @rows forall k int :: {prArgs[k]} regTB <= k && k < prLen ==> cellat(string, payload(prArgs[k][0])) == ss[k - regTB] && OldTotalRow(k, COL, E0, N0) && (forall j int :: {prArgs[k][j]} 0 <= j && j < 4 ==> payload(prArgs[k][j]) >= old(alloc()) && payload(prArgs[k][j]) < alloc())
+    invariant @adjacent forall k int :: {prArgs[k]} regTB <= k && k + 1 < prLen ==> cellat(string, payload(prArgs[k][0])) < cellat(string, payload(prArgs[k + 1][0]))
+    end { unfold StrictStr(elems(ss), len(ss)) }
   }
 
 // the line printers are verified as part of Process
